@@ -182,9 +182,39 @@ def run_micro(ctx: Ctx, driver: Driver):
         asyncio.set_event_loop(None)
         loop.close()
     compare_with_model(ctx, "micro", cases, outs, lines, driver, canon=lambda s: " ".join(sorted(s.split(" ")[0].split(","))) + " " + s.split(" ")[-1])
+    m4_close_probe(ctx)
+
+
+def m4_close_probe(ctx: Ctx):
+    """A connection lost in the very instant its pair-verify completes (the accessory sends M4 and closes): requests issued afterwards
+    through the public HomeKitConnection entry points must fail with a disconnection error like on any other dead connection, never
+    with a non-library exception.  (Found on the unchanged tree by the C05 cross-session stream: the connector went on to install a
+    SecureHomeKitProtocol without a transport and every request raised AttributeError until the next reconnect; repaired in /repo.)"""
+    from harness.c05 import xs_run
+    for entry in ("get", "put", "post", "get_json", "put_json", "post_json", "request", "post_tlv"):
+        for d4, tclose, tcall in ((0.4, 0.41, 0.5), (0.4, 0.41, 0.41), (0.0, 0.02, 0.3)):
+            hist = {"stream": "xsession", "seed": 1, "owner": False, "limit": 1,
+                    "epochs": [{"end": "first", "plans": [{"d0": 0.01, "d2": 0, "d4": d4}], "events": [[tclose, "peer_close"]], "calls": [[tcall, entry, {"k": 11}]], "kick": True}]}
+            case = {"stream": "m4-close-probe", "hist": hist}
+            try:
+                _problems, info = xs_run(hist)
+            except Exception as e:  # noqa: BLE001
+                ctx.violation("secure/m4-close-probe/scenario-raised", f"{type(e).__name__}: {e}", case)
+                continue
+            ctx.evaluations += 1
+            ctx.dist["m4-close-probe"] += 1
+            for name, outcome in info.get("calls", []):
+                if outcome.startswith("raised:") and outcome.split(":", 1)[1] not in ("AccessoryDisconnectedError", "HttpErrorResponse", "CancelledError", "TimeoutError"):
+                    ctx.violation("secure/wrong-error", f"{name} issued at t={tcall} on a connection the accessory closed at t={tclose} right after sending M4 (t={d4 + 0.01:.2f}) failed with "
+                                  f"{outcome.split(':', 1)[1]} instead of a disconnection error", case)
 
 
 def replay_micro(ctx: Ctx, driver: Driver, case):
+    if case.get("stream") == "m4-close-probe":
+        from harness.c05 import xs_run
+        _p, info = xs_run(case["hist"])
+        bad = [o for _n, o in info.get("calls", []) if o.startswith("raised:") and o.split(":", 1)[1] not in ("AccessoryDisconnectedError", "HttpErrorResponse", "CancelledError", "TimeoutError")]
+        return ("request failed with " + bad[0]) if bad else None
     loop = asyncio.new_event_loop()
     asyncio.set_event_loop(loop)
     try:
